@@ -89,35 +89,69 @@ CFG = {
                'PrimInt63.tail0',
                'PrimInt63.compare'],
     'uses_gen': False,
-    'rule': 'adversarial panic / finiteness search on the real code under catch_unwind. Point sets of 0..=2000 points '
+    'rule': 'adversarial panic / finiteness search on the real code under catch_unwind (the observation of a panic names its '
+            'message and source location: `fails panic:<message> @<file>:<line>`). Point sets of 0..=2000 points '
             '(quick <= 300), r in [0.05, 0.25] m, any phi, |z| <= 1.3 m, families: helices (pitch 0, subnormal, '
             '+-1e-17..+-1e2, the EPSILON guard +-1 ulp), exactly collinear (radial lines at phi in {0, pi, pi/2, ..}) and '
             'nearly collinear (general lines through cartesian->cylindrical rounding), repeated points, equal radii, '
             'vertical lines, circles through the origin, dyadic grids (cylindrical and cartesian), uniform noise, 1-4 '
-            'tracks + noise; one perturbation scale per case from {0, 1e-18..1e-2}. rel14p: cluster_spacepoints -> '
-            'Track::try_from per cluster -> find_vertices; rel14f: Track::try_from(Cluster::verif_from_points) on '
-            'cluster-sized sets (>= 3 points); rel14v: find_vertices on 0..=8 tracks from Track::verif_from_params with '
-            'ties (identical tracks, equal z0, equal radii). fit3: differential of the NoInitialParameters decision '
-            'against the extracted binary64 model of three_template_points. non-trivial = the stage under test is reached',
-    'trusted': ['hand-written Gallina control skeleton of fit_cluster_to_helix / three_template_points / find_vertices / '
-                'beamline_clusters (coq/Recon/Fit.v); tie to /repo: differential of the NoInitialParameters decision '
-                '(fit3 lines) and the panic search',
-                'NOT PROVED (named gaps, hypotheses N3, N4, V3, V4 of the theorems): NaN-freedom of closest_t / Helix::at '
-                'in binary64 and the behaviour of argmin\'s Nelder-Mead; monitored by the rel14* lines (a test)',
+            'tracks + noise; one perturbation scale per case from {0, 1e-18..1e-2}; near-collinear radial sets with an '
+            'angular scatter log-uniform over the WHOLE range 1e-300..1e-19 rad (phi0 = 0 or tiny; z equal / 1e-300 steps / '
+            'real steps; 3..24 points) and a boundary guard with template circle radius 1e129..1e136 m that must hold. '
+            'rel14p: cluster_spacepoints -> Track::try_from per cluster -> find_vertices; rel14f: '
+            'Track::try_from(Cluster::verif_from_points) on cluster-sized sets (>= 3 points); rel14v: find_vertices on 0..=8 '
+            'tracks from Track::verif_from_params with ties (identical tracks, equal z0, equal radii). Every rel14p / rel14f '
+            'point set, whatever family produced it, is tagged rel14kf-tinyphi-* iff the checked recogniser '
+            'c14::tinyphi_class accepts it (template points not collinear in the sense of the code and circle through them of '
+            'radius >= 1e136 m); on replay a line claiming the tag for a set outside the class is answered `fails '
+            'not-in-class-tinyphi`. fit3: differential of the NoInitialParameters decision against the extracted binary64 '
+            'model of three_template_points; cls14: differential of the recogniser against Fit.tinyphi_class. '
+            'non-trivial = the stage under test is reached',
+    'trusted': ['hand-written Gallina control skeleton of fit_cluster_to_helix / three_template_points / Problem::cost '
+                '(coq/Recon/Fit.v); tie to /repo: differential of the NoInitialParameters decision (fit3 lines: the '
+                'template-point selection and the collinearity test, i.e. every panicking construct of three_template_points) '
+                'and the panic search; the asserts and unwraps after it (:102-124, :265) are tied by the panic search only',
+                'the find_vertices / beamline_clusters / vertex-cost skeleton of coq/Recon/Fit.v has NO differential tie of its '
+                'own. The same source lines (vertex_fitting.rs:12-181: the two filters, sort, the clustering loop, '
+                'max_set_by_key, max_by, position/swap_remove remainder) are modelled a second time in coq/Recon/Vertex.v, '
+                'and THAT model is tied to /repo by the `c15v` differential of C15 (clusters, primary tracks and remainder '
+                'compared exactly; C15_vertex_partition, C15_primary_two_tracks). The two transcriptions are not proved '
+                'equivalent in Coq: C14_vertex_skeleton_total is a theorem about the Fit.v transcription (line numbers in its '
+                'comments), cross-checked against the C15-tied one by reading, and monitored by the rel14v panic search',
+                'NOT PROVED (named gaps, hypotheses N3e, N4e, V3e, V4e of the theorems): that the cost functions return a '
+                'non-NaN number on the parameter vectors argmin passes to them (NaN-freedom of closest_t / Helix::at in '
+                'binary64 along the optimiser\'s path) and that argmin 0.8.1\'s Nelder-Mead is well formed on non-NaN costs '
+                '(asks vectors of the simplex dimension, does not fail by itself, best_param is a vector it evaluated: read '
+                'from its source, not modelled); monitored by the rel14* lines (a test)',
                 'std slice::sort_unstable_by returns a permutation; itertools minmax_by_key / max_set_by_key, '
                 'Iterator::min_by / max_by / position, Vec::swap_remove as modelled in coq/Recon/Fit.v',
                 'glibc libm (called from OCaml in the model runner and from Rust in the implementation)'],
-    'level_text': 'PARTIAL: proof of the control skeleton, conditional on named numeric hypotheses. Proved: no unwrap / '
-                  'assert / partial_cmp().unwrap() / index / position().unwrap() of the fit and of vertex finding can fail, '
-                  'and NoInitialParameters is the only error, provided radii and z values are not NaN, the cost oracles '
-                  'never yield NaN and the optimiser returns a parameter vector; t_inner / t_outer are values of closest_t, '
-                  'hence NaN or in [-pi, pi] (C16). Not proved: the numeric hypotheses themselves (binary64 Newton '
-                  'iteration through glibc, argmin Nelder-Mead); they are monitored by an adversarial search on the '
-                  'implementation (a test).',
-    'level_note': 'trusted: Coq kernel; hand-written skeleton; the named numeric hypotheses; harness and driver',
+    'level_text': 'PARTIAL: proof of the control skeleton, conditional on named hypotheses stated relative to the parameter '
+                  'vectors the optimiser actually evaluates. The optimiser is modelled as a procedure that receives the cost '
+                  'function (an interaction tree Ask/Done/Crash, universally quantified); ASSUMED, exactly: (N1) partial_cmp of '
+                  'non-NaN numbers is Some and (N2) |p.r - mid| is not NaN (both PROVED for binary64 with finite radii <= 1 m); '
+                  '(N3e) on every vector the optimiser asks for this cluster from this cluster\'s initial simplex the cost '
+                  'function returns a non-NaN number, i.e. its assert!(!val.is_nan()) does not fire during this fit; (N4e) on '
+                  'that simplex argmin is well formed: while the answers are non-NaN it asks vectors of dimension 6 (3 for the '
+                  'vertex), does not fail by itself and best_param is a vector it asked; sort_unstable_by permutes; the input '
+                  'tracks of find_vertices have no NaN field. PROVED from these: no unwrap / assert / partial_cmp().unwrap() / '
+                  'index / position().unwrap() of the fit and of vertex finding can fail and NoInitialParameters is the only '
+                  'error; with NO numeric hypothesis: t_inner / t_outer of a returned track are values of closest_t, hence NaN '
+                  'or in [-pi, pi] (C16), and not NaN when best_param was evaluated. The hypotheses are satisfied by a binary64 '
+                  'instance with the real cost kernel of coq/Recon/Helix.v (C14_fit_instance_binary64). NOT proved: (N3e), '
+                  '(N4e) themselves and finiteness of the returned parameters; they are monitored by an adversarial search on '
+                  'the implementation (a test), which finds them false on the class of the open finding F9.',
+    'level_note': 'trusted: Coq kernel; hand-written skeleton; the named hypotheses (N3e), (N4e), (V3e), (V4e) exactly as '
+                  'written in coq/Props/C14.v; harness and driver. The earlier form of the hypotheses ("the cost kernel is not '
+                  'NaN for EVERY parameter vector") was unsatisfiable by any binary64 kernel and is no longer pinned; '
+                  'Fit_proofs.fit_skeleton_total_lemma / vertex_skeleton_total_lemma keep it only because C09 imports them. '
+                  'The vertex skeleton has no differential of its own (see trusted)',
     'note': 'rel14* lines: implementation-only oracle (holds / fails <detail>), the model runner answers `holds`; a `fails` '
             'line is an input of the quantified domain on which the implementation panics or returns non-finite geometry. '
-            'fit3 lines: model and implementation must agree on noinit / track. OPEN FINDING tinyphi (rel14kf-tinyphi-*, '
-            'corpus/C14/tinyphi.case): Track::try_from panics (found NaN in track_fitting::cost_function) on clusters straight to '
-            'better than ~1e-150 m but not exactly collinear; Coq side: Fit.tinyphi_class, C14_tinyphi_known_witness',
+            'fit3 / cls14 lines: model and implementation must agree. OPEN FINDING tinyphi, F9 (rel14kf-tinyphi-*, '
+            'corpus/C14/tinyphi.case): Track::try_from panics (found NaN in track_fitting::cost_function, '
+            'track_fitting.rs:265) when the circle through the three template points has radius >= ~1e138 m (equal z; '
+            '>= ~1e153 m for unequal z) and the points are not exactly collinear in the sense of the code; class recogniser: '
+            'radius >= 1e136 m (c14::tinyphi_class = Fit.tinyphi_class); measured failing region in the comment at '
+            'c14::R_CLASS; Coq side: C14_tinyphi_known_witness',
 }
